@@ -188,10 +188,10 @@ CORE20 = ["object", "int", "bool", "float", "str", "None", "Never", "A", "B", "D
 UNION_CORE = ["object", "int", "bool", "float", "str", "None", "Never", "A", "B", "D", "Co[B]", "PGen[B]",
               "tuple[int, str]", "tuple[int, ...]", "TDT", "Literal[1]", "Literal[True]", "Literal[Color.RED]",
               "Color", "Callable[[int], str]"]
-# cache-independence mode (iv): queries over these (12 core atoms + same-TypeInfo instances so that the
+# cache-independence mode (iv): queries over these (core atoms + same-TypeInfo instances so that the
 # per-TypeInfo subtype caches are actually hit with related keys, incl. promotion-sensitive ones)
-CACHE_CORE = CORE12 + ["float", "Co[D]", "Co[int]", "Co[float]", "Inv[B]", "Inv[D]", "PGen[D]", "list[B]",
-                       "K", "CB", "Type[K]"]
+CACHE_CORE = ["object", "int", "float", "None", "B", "D", "Co[B]", "Co[D]", "Co[int]", "Co[float]", "Inv[B]", "Inv[D]",
+              "PGen[B]", "PGen[D]", "list[B]", "tuple[int, str]", "Callable[[int], str]", "K", "CB", "Type[K]"]
 # quick runs mode (iv) over this smaller core
 CACHE_CORE_Q = ["int", "float", "B", "D", "Co[int]", "Co[float]", "PGen[B]", "K", "CB", "Type[K]"]
 
@@ -199,7 +199,7 @@ CACHE_CORE_Q = ["int", "float", "B", "D", "Co[int]", "Co[float]", "PGen[B]", "K"
 # them and a few related types).  tuple[P..., *tuple[V, ...], S...] for every prefix and suffix of length
 # 0..2 over TUP_PS, every V in TUP_V, plus every fixed tuple of length 0..3 over TUP_FIXED.
 TUP_PS = {"thorough": ["int", "str", "object"], "quick": ["int", "str"]}
-TUP_V = {"thorough": ["int", "str", "object", "bool"], "quick": ["int", "str", "object"]}
+TUP_V = {"thorough": ["int", "str", "object"], "quick": ["int", "str", "object"]}
 TUP_FIXED = {"thorough": ["int", "str", "object", "bool"], "quick": ["int", "str", "object"]}
 TUP_FIXED_MAXLEN = {"thorough": 3, "quick": 3}
 TUP_RELATED = ["object", "Never", "None", "NT", "tuple[int, ...]", "Sequence[int]", "Sequence[str]", "Sequence[object]",
